@@ -27,7 +27,7 @@ CHECKS.update({
    note=CODEC_NOTE + " Typed helpers are exercised for a fixed representative set of 29 message types per expansion."),
  "C03": dict(engine="codec_harness", category="fault_enumeration", design="DESIGN.md §2 C03",
    technique="structured fault injection from the model's trace + random frames (proptest), each case in an isolated worker process under RLIMIT_AS and a watchdog",
-   text="Every message's valid encodings are corrupted field by field (truncations, count/length/size extremes, out-of-range enum/bool/flag/mask/date patterns, string damage, inconsistent headers, zlib damage and bombs) and fed, with random bodies, an exhaustive per-endpoint header sweep (every small / boundary size in the 2-byte and 3-byte form x defined / undefined opcode x tails x truncations) and raw byte strings, to the public readers (800 / 8000 directed encodings per message in the quick / thorough tier) inside worker processes limited to 1 GiB beyond their idle footprint; any panic, abort, allocation failure or stack overflow is a violation, a watchdog hit is inconclusive.",
+   text="Every message's valid encodings are corrupted field by field (truncations, count/length/size extremes, out-of-range enum/bool/flag/mask/date patterns, string damage, inconsistent headers, zlib damage and bombs) and fed, with random bodies, an exhaustive per-endpoint header sweep (every small / boundary size in the 2-byte and 3-byte form x defined / undefined opcode x tails x truncations) and raw byte strings, to the public readers (800 / 8000 directed encodings per message in the quick / thorough tier) inside worker processes whose address space is limited to 1.5 GiB beyond their footprint at the time of the call; any panic, abort, allocation failure or stack overflow is a violation, a watchdog hit is inconclusive.",
    note=CODEC_NOTE + " Overflow checks are on in the harness build. Hangs shorter than the watchdog and memory growth below the budget are not detected."),
  "C04": dict(engine="codec_harness", category="fault_enumeration", design="DESIGN.md §2 C04",
    technique="enumeration of fault sites from the wowm model (every enum leaf x undeclared values incl. width aliases; every constant-size message x every wrong length; exhaustive opcode space) with a metamorphic oracle",
